@@ -58,6 +58,36 @@ def module_dir(mod):
     return out.decode().strip()
 
 
+def _struct_field(src, struct, typ, default):
+    """name of the (first) field of type `typ` in `type <struct> struct {…}`"""
+    m = re.search(r"type\s+%s\s+struct\s*\{(.*?)\n\}" % struct, src, flags=re.S)
+    if m:
+        for line in m.group(1).splitlines():
+            f = line.split("//")[0].split()
+            if len(f) >= 2 and f[-1] == typ:
+                return f[0].rstrip(",")
+    return default
+
+
+def export_names():
+    """the unexported names the accessor files refer to, looked up in the working tree (a renamed helper or field is not a
+    broken tie): the method Server.Run starts as a goroutine, the router field of sbi.Server, the server field of ChfApp"""
+    names = {"sbi.startServer": "startServer", "sbi.routerField": "router", "service.sbiServerField": "sbiServer"}
+    try:
+        src = "\n".join(open(f).read() for f in sorted(glob.glob(os.path.join(REPO, "internal", "sbi", "*.go"))) if not f.endswith("_test.go"))
+        m = re.search(r"func \((\w+) \*Server\) Run\(.*?\n\}", src, flags=re.S)
+        if m:
+            g = re.search(r"\bgo\s+%s\.(\w+)\(\s*\w+\s*\)" % re.escape(m.group(1)), m.group(0))
+            if g:
+                names["sbi.startServer"] = g.group(1)
+        names["sbi.routerField"] = _struct_field(src, "Server", "*gin.Engine", "router")
+        src = "\n".join(open(f).read() for f in sorted(glob.glob(os.path.join(REPO, "pkg", "service", "*.go"))) if not f.endswith("_test.go"))
+        names["service.sbiServerField"] = _struct_field(src, "ChfApp", "*sbi.Server", "sbiServer")
+    except OSError:
+        pass
+    return names
+
+
 def overlay_map():
     rep = {}
     for f in sorted(glob.glob(os.path.join(HARNESS_SRC, "cmd", "*.go"))):
@@ -66,7 +96,13 @@ def overlay_map():
     for d in sorted(glob.glob(os.path.join(HARNESS_SRC, "export", "*"))):
         pkg = os.path.basename(d).replace("__", "/")
         for f in sorted(glob.glob(os.path.join(d, "*.go"))):
-            rep[os.path.join(REPO, pkg, "zz_verif_" + os.path.basename(f))] = f
+            body = open(f).read()
+            if "{{" in body:
+                for k, v in export_names().items():
+                    body = body.replace("{{%s}}" % k, v)
+                f = os.path.join(BUILD, "export_%s_%s_%s" % (REPO_KEY, os.path.basename(d), os.path.basename(f)))
+                write_if_changed(f, body)
+            rep[os.path.join(REPO, pkg, "zz_verif_" + os.path.basename(f).split("_")[-1])] = f
     # registry of every type declared in cdr/cdrType (regenerated from the working tree)
     reg = os.path.join(BUILD, "zz_registry_%s.go" % REPO_KEY)
     names = []
